@@ -259,6 +259,9 @@ func (d *Decoder) Write(p []byte) (n int, err error) {
 	}
 
 	for len(d.buf) > 0 {
+		// A block may begin with several dynamic table size updates
+		// (RFC 7541, section 4.2); they do not end its beginning.
+		sizeUpdate := d.buf[0]&0xe0 == 0x20
 		err = d.parseHeaderFieldRepr()
 		if err == errNeedMore {
 			// Extra paranoia, making sure saveBuf won't
@@ -273,7 +276,9 @@ func (d *Decoder) Write(p []byte) (n int, err error) {
 			d.saveBuf.Write(d.buf)
 			return len(p), nil
 		}
-		d.firstField = false
+		if !sizeUpdate {
+			d.firstField = false
+		}
 		if err != nil {
 			break
 		}
